@@ -99,3 +99,46 @@ def set_feature_masks(pit, spec, group_masks: Dict[str, List[bool]], vals: Optio
             if masker.alpha.numel() == len(v):
                 masker.alpha.copy_(torch.tensor(v, dtype=torch.float32))
     return done
+
+
+def build_pit_import(spec, wseed: int, plain: set, fold_bn: bool = False, xseed: int = 0, **kw):
+    """Import mode (autoconvert_layers=False): every conv/linear layer whose node id is not in
+    `plain` is placed by the 'user' as a PIT layer, with one masker per reference width group
+    (frozen where the reference says the width is pinned), the way a careful user would."""
+    from plinio.methods import PIT
+    from plinio.methods.pit.nn import PITConv1d, PITConv2d, PITLinear
+    from plinio.methods.pit.nn.features_masker import PITFeaturesMasker, PITFrozenFeaturesMasker
+    from plinio.methods.pit.nn.timestep_masker import PITTimestepMasker, PITFrozenTimestepMasker
+    from plinio.methods.pit.nn.dilation_masker import PITDilationMasker, PITFrozenDilationMasker
+    net = ng.build(spec, wseed)
+    shapes = ng.infer_shapes(spec)
+    group_of, frozen, members = ng.width_groups(spec, fixed=set(plain))
+    maskers = {}
+    from plinio.methods.pit.nn import PITBatchNorm1d, PITBatchNorm2d
+    for n in spec['nodes']:
+        nid = n['id']
+        if n['op'] == 'bn':
+            # a stand-alone BN must be searchable too, or it pins the width of what it consumes
+            orig = net.layers[nid]
+            net.layers[nid] = (PITBatchNorm1d if spec['family'] == '1d' else PITBatchNorm2d)(orig)
+            continue
+        if n['op'] not in ng.LAYER_OPS or nid in plain:
+            continue
+        g = group_of[nid]
+        if g not in maskers:
+            cls = PITFrozenFeaturesMasker if g in frozen else PITFeaturesMasker
+            maskers[g] = cls(shapes[nid][0])
+        orig = net.layers[nid]
+        if n['op'] == 'conv1d':
+            K = n['k']
+            tm = PITFrozenTimestepMasker(K) if n['stride'] != 1 else PITTimestepMasker(K)
+            dm = PITFrozenDilationMasker(K) if n['stride'] != 1 else PITDilationMasker(K)
+            new = PITConv1d(orig, maskers[g], tm, dm, fold_bn=fold_bn)
+        elif n['op'] == 'conv2d':
+            new = PITConv2d(orig, maskers[g], fold_bn=fold_bn)
+        else:
+            new = PITLinear(orig, maskers[g], fold_bn=fold_bn)
+        net.layers[nid] = new
+    x = ng.make_input(spec, xseed)
+    pit = PIT(net, input_example=x, autoconvert_layers=False, fold_bn=fold_bn, **kw)
+    return net, pit, x
